@@ -236,6 +236,26 @@ theorem cn_roundtrip_shanghai {c : Cfg} (hc : Proved c) {nb : BitVec 8} (hl : La
     fromChStyle c shanghai nb epoch (cnStyle shanghai nb epoch id) = some id :=
   cn_roundtrip_aux hc shanghai InCalendar shanghai_lawful hl epoch id hid (cnMs_inCalendar hl epoch id hid he0 he1)
 
+/-- distinct ids have distinct date forms (a batch of date forms identifies its ids; pure functions of the id, so this
+    holds whatever else is formatted in between and from however many goroutines) -/
+theorem cn_injective_shanghai {c : Cfg} (hc : Proved c) {nb : BitVec 8} (hl : LayoutOk nb) (epoch a b : BitVec 64)
+    (ha : 0 ≤ a.toInt) (hb : 0 ≤ b.toInt) (he0 : 946684800000 ≤ epoch.toInt) (he1 : epoch.toInt ≤ 2 ^ 47)
+    (h : cnStyle shanghai nb epoch a = cnStyle shanghai nb epoch b) : a = b := by
+  have ra := (cn_roundtrip_shanghai hc hl epoch a ha he0 he1).2
+  have rb := (cn_roundtrip_shanghai hc hl epoch b hb he0 he1).2
+  rw [h, rb] at ra
+  exact (Option.some.inj ra).symm
+
+/-- **limit of the 24-character form**: past 9999-12-31 the year needs five digits. "All epochs from year 2000 on" has no
+    upper end, and with an epoch of 10000-01-01T00:00:00Z the very first id is dated in the year 10000: its date form has 25
+    characters and `FromChStyle` rejects it. The domain of `cn_roundtrip_shanghai` (`InCalendar`; epoch ≤ 2^47 ms ≈ year 6429,
+    so that epoch + 2^43 ms stays before the year 10000) is therefore a real restriction. It is not reported as a violation:
+    the clause speaks of "the 24-character date form", which does not exist for such an id. -/
+theorem witness_year_10000 :
+    (cnStyle shanghai 8#8 253402300800000#64 0#64).length = 25 ∧
+    fromChStyle ⟨.unixMilli⟩ shanghai 8#8 253402300800000#64 (cnStyle shanghai 8#8 253402300800000#64 0#64) = none ∧
+    ¬ InCalendar (cnMs 8#8 253402300800000#64 0#64).toInt := by decide
+
 /-- non-vacuity of `cn_roundtrip`'s hypothesis: the instance and its domain -/
 example : shanghai.Lawful InCalendar := shanghai_lawful
 example : InCalendar 946684800000 ∧ InCalendar 253402271999999 ∧ ¬ InCalendar 253402272000000 := by decide
